@@ -636,10 +636,26 @@ func propC14(c *Ctx) {
 					e2 := &p.Events[j]
 					if e2.Kind == EvFact && e2.Pol && e2.Cond.Op == "bin" && e2.Cond.Name == "<" && e2.Cond.Args[1].Key() == "builtin.len(nextExecutors)" && e2.Cond.Args[0].IsConst() {
 						idx := e2.Cond.Args[0].Name
-						if !p.HasFact(i, func(a *Term, pol bool) bool {
-							x := eqOther(a, "nil")
-							return pol && x != nil && x.Op == "extract" && x.Name == "1" && decodedFrom(x.Args[0]) != nil && decodedFrom(x.Args[0]).Key() == "nextExecutors["+idx+"]"
-						}) {
+						decodes := func(el string) bool {
+							return p.HasFact(i, func(a *Term, pol bool) bool {
+								x := eqOther(a, "nil")
+								return pol && x != nil && x.Op == "extract" && x.Name == "1" && decodedFrom(x.Args[0]) != nil && decodedFrom(x.Args[0]).Key() == el
+							})
+						}
+						el := "nextExecutors[" + idx + "]"
+						// ... or is the same string as an element that decodes (decoding depends on
+						// the string only)
+						sameAsDecoded := p.HasFact(i, func(a *Term, pol bool) bool {
+							if !pol || a.Op != "bin" || a.Name != "==" {
+								return false
+							}
+							x, y := a.Args[0].Key(), a.Args[1].Key()
+							if y == el {
+								x, y = y, x
+							}
+							return x == el && strings.HasPrefix(y, "nextExecutors[") && decodes(y)
+						})
+						if !decodes(el) && !sameAsDecoded {
 							execOK = false
 						}
 					}
@@ -663,7 +679,7 @@ func propC14(c *Ctx) {
 				}
 			}
 			if p.OK() && !p.Panic {
-				if len(p.Find(func(ev *Event) bool { return ev.Kind == EvMapUpdate })) != 1 {
+				if len(p.Find(func(ev *Event) bool { return ev.Kind == EvMapUpdate && !scratchMap(ev.Place) })) != 1 {
 					o.Fail(c.W.Pos(fn.Pos()), "success without exactly one plan write", c.Dump(p, -1))
 				}
 			} else if len(p.Find(func(ev *Event) bool { return effectKind(ev) != "" })) > 0 {
